@@ -244,11 +244,14 @@ func Gen(caseID, tier string) (json.RawMessage, error) {
 		tp.Keytab.Etypes = append(tp.Keytab.Etypes, etypes[perm[i]])
 	}
 	if r.Chance(1, 40) {
-		// history shape: one client presents 65-100 valid, distinct requests and then the first one
+		// history shape: one client presents 65-300 valid, distinct requests and then the first one
 		// again: however many others the service has seen since, that is still a replay
 		et := tp.Keytab.Etypes[0]
 		mk := world.ReqSpec{Client: "alice", Svc: tp.Keytab.Services[0], Realm: tp.Keytab.Realms[0], Kvno: tp.Keytab.Kvnos[len(tp.Keytab.Kvnos)-1], Etype: et, KvnoField: true, StartTime: true, LifeS: 36000}
 		n := r.Range(65, 100)
+		if r.Chance(1, 2) {
+			n = r.Range(130, 300)
+		}
 		for i := 0; i < n; i++ {
 			tp.Pres = append(tp.Pres, Pres{Spec: mk, ReplayOf: -1, ThinkNs: int64(r.Range(1, 2000)) * 1000})
 		}
